@@ -6,5 +6,6 @@ import (
 	_ "verifsim/props/c12"
 	_ "verifsim/props/c13"
 	_ "verifsim/props/c14"
+	_ "verifsim/props/c15"
 	_ "verifsim/props/c18"
 )
